@@ -97,7 +97,7 @@ def replay_case(case):
     if 1 <= mdi <= max(1, b / 2 - 1) and math.isfinite(default) and default > 0:
         rng = np.random.default_rng(n * 1000 + b * 100 + int(case["thr2"]))
         tab2 = {k: split_columns(int(v), p, rng) for k, v in tab.items()}
-        det = MovingWindow(change_score=TableChangeScore(tab2, p=p), bandwidth=b, threshold_scale=thr / default,
+        det = MovingWindow(change_score=TableChangeScore(tab2, p=p, int_out=bool((n + b) % 2)), bandwidth=b, threshold_scale=thr / default,
                            min_detection_interval=mdi)
         X = np.zeros((n, p))
         try:
